@@ -340,7 +340,7 @@ func (c *ClientConn) maybePrepareAndExecute(request Request, raw *frame.RawFrame
 		id := hex.EncodeToString(msg.Id)
 		if prepare, ok := c.preparedCache.Load(id); ok {
 			err = c.Send(&prepareRequest{
-				prepare:     prepare.PreparedFrame,
+				prepare:     copyRawFrame(prepare.PreparedFrame), // The sender rewrites the header (stream id, length)
 				origRequest: request,
 			})
 			if err != nil {
@@ -382,7 +382,7 @@ func (c *ClientConn) maybeCachePrepared(request Request, raw *frame.RawFrame) {
 		}
 		c.preparedCache.Store(hex.EncodeToString(msg.PreparedQueryId),
 			&PreparedEntry{
-				request.Frame().(*frame.RawFrame), // Store frame so we can re-prepare
+				copyRawFrame(request.Frame().(*frame.RawFrame)), // Store frame so we can re-prepare
 			})
 	}
 }
@@ -577,6 +577,11 @@ func (r *prepareRequest) OnResult(raw *frame.RawFrame) {
 		next = true // Try the next node
 	}
 	r.origRequest.Execute(next)
+}
+
+// copyRawFrame makes a copy of a raw frame with its own header. The body bytes are shared, they are never modified.
+func copyRawFrame(raw *frame.RawFrame) *frame.RawFrame {
+	return &frame.RawFrame{Header: raw.Header.DeepCopy(), Body: raw.Body}
 }
 
 func readInt(bytes []byte) (int32, error) {
